@@ -11,6 +11,7 @@ package server
 //@ func nodeSelector$1
 //@   prop C02
 //@   safety_off
+//@   calls_havoc
 //@   modifies *
 //@   ghost gFull bool = false
 //@   ghostset at "if !adminPriv && !fullwrite && locked && !branchRequest": gFull = fullwrite
@@ -19,6 +20,7 @@ package server
 //@ func instanceSelector$1
 //@   prop C02
 //@   safety_off
+//@   calls_havoc
 //@   modifies *
 //@   ghost gChecked bool = false
 //@   ghost gLocked bool = false
@@ -35,12 +37,14 @@ package server
 //@ func repoCommitHandler
 //@   prop C02
 //@   safety_off
+//@   calls_havoc
 //@   modifies *
 //@   assert at "err = datastore.Commit(uuid, jsonData.Note, jsonData.Log)": !locked
 
 //@ func repoNewDataHandler
 //@   prop C02
 //@   safety_off
+//@   calls_havoc
 //@   modifies *
 //@   ghost gFull bool = false
 //@   ghostset at "if !adminPriv && !fullwrite && locked {": gFull = fullwrite
